@@ -476,7 +476,7 @@ def main(argv: list[str] | None = None) -> int:
         shard_id = 0
         for item in plan:
             total = int(item["n"] * args.scale)
-            nshards = min(NPROC, max(1, total // 20)) if total > 0 else 0
+            nshards = min(NPROC, max(1, total // getattr(check, 'SHARD_MIN', 20))) if total > 0 else 0
             for s in range(nshards):
                 n = total // nshards + (1 if s < total % nshards else 0)
                 units.append((pid, "hyp", {"shard": shard_id, "n": n, "profile": item.get("profile")}, tier, seed))
